@@ -463,7 +463,7 @@ func main() {
 		r.Finish()
 	}
 	if r.Fork(16) {
-		r.Set("rule", "5 valid token sequences (7-70 tokens) x {delete token i, insert each of the 22 kinds before token i, replace token i by each kind, truncate before token i} for every i, and 20 kinds of lexical damage (NUL, control characters and a no-break space among them) in every gap (also glued to the token before it, after it, and both); each in five layouts (one line; one token per line; CR LF line ends; lone CRs between tokens; block and line comments with LF and CR LF inside in every gap); each rejected mutant re-rendered with 4 different continuations after the offending token; the one-line, vertical and boundary-aligned layouts (for stray text: one-line and glued) are also given to the real binary as a file (quick: every third), which must exit non-zero without announcing success and name the same file:line:column first on stderr; non-trivial = a mutant that is not a specification; distinct by text")
+		r.Set("rule", "5 valid token sequences (7-70 tokens) x {delete token i, insert each of the 22 kinds before token i, replace token i by each kind, truncate before token i} for every i, and 20 kinds of lexical damage (NUL, control characters and a no-break space among them) in every gap (also glued to the token before it, after it, and both); each in five layouts (one line; one token per line; CR LF line ends; lone CRs between tokens; block and line comments with LF and CR LF inside in every gap); file names with percent signs, blanks, colons and directories; each rejected mutant re-rendered with 4 different continuations after the offending token; the one-line, vertical and boundary-aligned layouts (for stray text: one-line and glued) are also given to the real binary as a file (quick: every third), which must exit non-zero without announcing success and name the same file:line:column first on stderr; non-trivial = a mutant that is not a specification; distinct by text")
 		r.Set("evaluations", r.Get("mutants"))
 		r.Finish()
 	}
@@ -512,9 +512,41 @@ func main() {
 					checkMutant(r, t, append(append(append([]ebnfref.Token{}, toks[:i]...), spell(k)), toks[i+1:]...), "replace")
 				}
 			}
-			for _, dmg := range []string{"#", "é", "0", "_", `"abc`, "/abc", "/* abc", "@lef", "$", "A", "'", "\\", "\x00", "\x00\x00x", "\f", "\v", "\x1b", "\x01", "\x7f", "\u00a0"} {
+			for _, dmg := range []string{"#", "é", "0", "_", `"abc`, "/abc", "/* abc", "@lef", "$", "A", "'", "\\", "\x00", "\x00\x00x", "\f", "\v", "\x1b", "\x01", "\x7f", "\u00a0", "%", "%d", "%s%", "\"50%d", "/%v"} {
 				if mine() {
 					checkLexical(r, t, toks, i, dmg)
+				}
+			}
+		}
+	}
+	// the file name is part of the diagnostic as it was given: names with a percent sign, blanks, colons, a directory
+	// part - for a stray character and for an unexpected token at every position of the shortest base
+	if toks, err := ebnfref.TokensOfText(bases[0]); err == nil && r.MineIdx(1) {
+		for _, name := range []string{"my%20spec.g", "100%", "%s.g", "a b.g", "dir/sub/x.g", "a:b.g", "x.g:9:9", "é.g", "-"} {
+			for i := 0; i <= len(toks); i++ {
+				for _, extra := range []ebnfref.Token{{Kind: "?", Text: "#"}, spell(")")} {
+					with := append(append(append([]ebnfref.Token{}, toks[:i]...), extra), toks[i:]...)
+					text, placed := ebnfref.Render(with, layouts[1].sep, layouts[1].end)
+					want := fmt.Sprintf("%s:%d:%d", name, placed[i].Line, placed[i].Col)
+					if extra.Kind != "?" {
+						j := firstBad(t, with)
+						if j < 0 || j >= len(with) {
+							continue
+						}
+						want = fmt.Sprintf("%s:%d:%d", name, placed[j].Line, placed[j].Col)
+					}
+					r.Add("mutants", 1)
+					r.Add("mutants_file_names", 1)
+					_, err := spec.Parse(name, strings.NewReader(text))
+					_, aerr := east.Parse(name, strings.NewReader(text))
+					for _, e := range []struct {
+						who string
+						err error
+					}{{"spec.Parse", err}, {"ast.Parse", aerr}} {
+						if e.err == nil || !strings.Contains(e.err.Error(), want) {
+							r.Report("", fmt.Sprintf("%s, file name %q: the diagnostic %q does not name %s\n%s", e.who, name, fmt.Sprint(e.err), want, text), input{Text: text, Bad: i})
+						}
+					}
 				}
 			}
 		}
